@@ -12,9 +12,12 @@ How `saveMapGob` replaces a file decides what a crash during the save can leave 
 here: the model is parametric in `Facts`, two behavioural facts regenerated on every run by probing the compiled
 `pkg/cache` (`Gen.C04`, bound in `Model/CacheTree.lean`):
 
-* `saveAtomic` — the new encoding is written elsewhere and renamed over the target (since /repo 998b465): the
-  path holds the complete old or the complete new version, plus possibly a partly written `<name>.tmp`;
-  `false` (before): `os.Create` on the target and encode in place — the path can hold a cut-off encoding;
+* `saveAtomic` — the new encoding is written to another path in the same directory, `fsync`ed, and renamed over the
+  target (since /repo 998b465), as seen in the system calls of the real save (no open-for-writing / truncate / unlink
+  of a target path; rename only; sync between the last write and the rename): the path holds the complete old or the
+  complete new version, plus possibly a partly written `<name>.tmp`;
+  `false` (before: `os.Create` on the target and encode in place; likewise remove + create, or rename without sync) —
+  the path can hold a cut-off encoding;
 * `loadIgnoresTmp` — `LoadFromDisk` opens the eight target paths only.
 -/
 namespace CacheDir
